@@ -421,25 +421,7 @@ def r3(ctx, chk):
                "the reader then fails with KeyError on cache[key][name]",
                key={"function": writer, "construct": "key-sparing eviction"}, file=w.file, function=w.qual, line=p.lineno)
     # readers return through the cache only after the build call
-    # (d) hash covers every key and value
-    gk = ix.func("dateparser.conf:Settings.get_key")
-    comps = [n for n in iter_own_nodes(gk.node) if isinstance(n, (ast.ListComp, ast.GeneratorExp))]
-    ok = False
-    for c in comps:
-        g0 = c.generators[0]
-        if len(c.generators) == 1 and not g0.ifs and isinstance(g0.iter, ast.Name) and g0.iter.id in gk.params() \
-                and isinstance(g0.target, ast.Name):
-            k = g0.target.id
-            elt = ast.unparse(c.elt)
-            if k in {x.id for x in ast.walk(c.elt) if isinstance(x, ast.Name)} and "%s[%s]" % (g0.iter.id, k) in elt:
-                ok = True
-    chk.ob(rule + "d", "Settings.get_key digests every key together with its value (no filter)", ok,
-           "two settings dicts that differ in an ignored key/value share one cached Settings object and one cache slot",
-           key={"function": gk.key, "construct": "hash covers all keys"}, file=gk.file, function=gk.qual, line=gk.node.lineno)
-    ok = any(isinstance(n, ast.Call) and ast.unparse(n.func) in ("hashlib.md5", "hashlib.sha1", "hashlib.sha256", "hash")
-             for n in iter_own_nodes(gk.node)) and any(isinstance(n, ast.Call) and ast.unparse(n.func) == "sorted" for n in iter_own_nodes(gk.node))
-    chk.ob(rule + "d", "the digest is order-independent (sorted) and a cryptographic hash of all items", ok, "",
-           key={"function": gk.key, "construct": "sorted + digest"}, file=gk.file, function=gk.qual, line=gk.node.lineno)
+    registry_key_rule(ctx, chk, rule + "d")
     rp = ix.func("dateparser.conf:Settings.replace")
     t_ = " ".join(ast.unparse(rp.node).split())
     import re as _re
@@ -451,6 +433,29 @@ def r3(ctx, chk):
 
 
 # ---------------------------------------------------------------------------
+def registry_key_rule(ctx, chk, rule):
+    """Settings.get_key folds every key together with its value into an order-independent digest (shared with C20)"""
+    ix = ctx.ix
+    gk = ix.func("dateparser.conf:Settings.get_key")
+    comps = [n for n in iter_own_nodes(gk.node) if isinstance(n, (ast.ListComp, ast.GeneratorExp))]
+    ok = False
+    for c in comps:
+        g0 = c.generators[0]
+        if len(c.generators) == 1 and not g0.ifs and isinstance(g0.iter, ast.Name) and g0.iter.id in gk.params() \
+                and isinstance(g0.target, ast.Name):
+            k = g0.target.id
+            elt = ast.unparse(c.elt)
+            if k in {x.id for x in ast.walk(c.elt) if isinstance(x, ast.Name)} and "%s[%s]" % (g0.iter.id, k) in elt:
+                ok = True
+    chk.ob(rule, "Settings.get_key digests every key together with its value (no filter)", ok,
+           "two settings dicts that differ in an ignored key/value share one cached Settings object and one cache slot",
+           key={"function": gk.key, "construct": "hash covers all keys"}, file=gk.file, function=gk.qual, line=gk.node.lineno)
+    ok = any(isinstance(n, ast.Call) and ast.unparse(n.func) in ("hashlib.md5", "hashlib.sha1", "hashlib.sha256", "hash")
+             for n in iter_own_nodes(gk.node)) and any(isinstance(n, ast.Call) and ast.unparse(n.func) == "sorted" for n in iter_own_nodes(gk.node))
+    chk.ob(rule, "the digest is order-independent (sorted) and a cryptographic hash of all items", ok, "",
+           key={"function": gk.key, "construct": "sorted + digest"}, file=gk.file, function=gk.qual, line=gk.node.lineno)
+
+
 def r4(ctx, chk):
     rule = "C03.R4"
     ti = ctx.ti
